@@ -365,6 +365,19 @@ type Fail struct {
 	Site, Class, Witness, Desc string
 }
 
+// Perm returns a random permutation of 0..n-1.
+func Perm(r *hx.Rng, n int) []int {
+	p := make([]int, n)
+	for i := range p {
+		p[i] = i
+	}
+	for i := n - 1; i > 0; i-- {
+		j := r.Intn(i + 1)
+		p[i], p[j] = p[j], p[i]
+	}
+	return p
+}
+
 type childrener interface{ GetChildren() []mp4.Box }
 
 // SizeAtEveryNode checks, for b and every descendant reachable through GetChildren, that Encode writes
@@ -504,7 +517,18 @@ func Lossless(in []byte, used int, b mp4.Box, decode func([]byte) (mp4.Box, int,
 				class, site = "header-size-ignored", "leaf-decoders"
 			}
 			if !wellFormed && site != "leaf-decoders" {
-				class = "malformed-accepted-not-reproduced"
+				// a mutant: the class says HOW the re-encoding differs (for inputs made of modelled box types only,
+				// the check replaces it by the reason the Coq model gives for this very input)
+				how := "same-length"
+				if len(out) < len(cmpIn) {
+					how = "shorter"
+				} else if len(out) > len(cmpIn) {
+					how = "longer"
+				}
+				if site == "esds" && inNode != nil && inNode.Type == "esds" {
+					how += ":" + EsdsWhere(cmpIn[inNode.Off:inNode.Off+inNode.Size], pos-inNode.Off)
+				}
+				class = "mutant-not-reproduced:" + how
 			}
 			*fails = append(*fails, Fail{site, class, w,
 				fmt.Sprintf("%s: input %d bytes, re-encoded %d bytes, first difference at offset %d", pathName, len(cmpIn), len(out), pos)})
